@@ -166,7 +166,7 @@ def deep_exports(ctx, depths):
     L = []
     for cx, start in DEEP_CTX:
         label = "deep-%s" % cx
-        L.append(Export(label, syn_cfg(label, start=start, cx=cx, maxtok=3, maxdmg=1, dkinds=("nest",), depths=depths)))
+        L.append(Export(label, syn_cfg(label, start=start, cx=cx, maxtok=5 if cx == "top" else 3, maxdmg=1, dkinds=("nest",), depths=depths)))
     return L
 
 
